@@ -470,6 +470,7 @@ pub fn ufn_path(f: UFn, inner: Inner) -> String {
         UFn::PointAbsY => "point_abs_y",
         UFn::FBoxAbs => "fbox_abs",
         UFn::OrAnon => "or_anon",
+        UFn::Recip => "recip",
         UFn::FBoxSmall => "fbox_small",
         UFn::IsEven => "is_even",
         UFn::CIsEven => match inner {
@@ -537,6 +538,8 @@ fn re_src(r: Re, sp: ReSpell) -> String {
         (Re::Lower, ReSpell::Lit) => format!("{:?}", ulib::RE_LOWER_SRC),
         (Re::Digits, ReSpell::StaticPath) => "ulib::RE_DIGITS".into(),
         (Re::Lower, ReSpell::StaticPath) => "ulib::RE_LOWER".into(),
+        (Re::HasDigit, ReSpell::Lit) => format!("{:?}", ulib::RE_HASDIGIT_SRC),
+        (Re::HasDigit, ReSpell::StaticPath) => "ulib::RE_HASDIGIT".into(),
     }
 }
 
